@@ -382,6 +382,9 @@ func genC05Program(r *eng.Rng, th bool) *eng.Program {
 	gp := eng.GenParams{MinBatches: 3, MaxBatches: 7, NKeys: 5 + r.Intn(6), Children: r.Chance(1, 3), Idle: true}
 	if r.Chance(1, 3) {
 		gp.Keys = hostileKeyPool(r)
+		if r.Chance(1, 2) {
+			gp.Keys = magicKeyPool(r)
+		}
 		gp.HostileVals = true
 	}
 	if th {
